@@ -53,3 +53,27 @@ claim('C20', 'range contract, repetition/interleaving history monitor, stream '
       're-issued in shuffled order after other generators ran.',
       'Generators without a published stream model are only range- and '
       'purity-checked. Known findings F5, F5b.')
+claim('C03', 'naive O(N^2) gcd reference model next to BatchGCD / CheckGCD / '
+      'CheckGCDN1; runtime contract on ExtendedProductTree',
+      'Every batch size 0..130 (thorough 0..520) with several dense, nested, '
+      'duplicate, all-equal and large-modulus value sets, permutations, the '
+      'optional extra product and four gcd bounds; verdict and recorded '
+      'factor compared per key.',
+      'Model = math.gcd with an explicit product of the other distinct '
+      'values.')
+claim('C04', 'generator-side ground truth next to CheckFermat, '
+      'CheckHighAndLowBitsEqual, CheckSmallUpperDifferences, CheckUnseededRand',
+      'Fermat moduli on both sides of each step bound (exact step index '
+      'computed), the admissible (r, s) grid for shared low/high bits, all six '
+      'documented differences for prime sizes 384..1024 (thorough 2048), every '
+      'listed unseeded output with its two top-bit variants.',
+      'Prime sizes sampled on a grid. Cofactor of unseeded primes sized so '
+      'that the modulus selects that list.')
+claim('C05', 'generator-side ground truth; per-family miss-rate monitor for the '
+      'lattice/search heuristics, per-execution for the Pollard clause',
+      'All default word sizes, custom pattern-size lists, all limb/pattern '
+      'cells with denominator <= bits/10, both-patterned and both-low-weight '
+      'primes, shared smooth p-1/q-1 with one or both smooth.',
+      'Heuristic families: run fails when misses are implausible for a miss '
+      'rate <= 2% (alpha 1e-7) and any isolated miss is a VIOLATION unless '
+      'listed. Known finding F19 (clustered low-weight primes).')
